@@ -158,7 +158,7 @@ PROPS = {
         harness="h_life", sources=LIFE, level="fault_enumeration", exhaustive=True,
         variants=dict(quick=[V("asan", 8)], thorough=[V("asan", 8), V("opt", 4)]),
         rule="for every operation of a 90-entry catalogue (constructors, factories, copy/move/proxy assignments onto empty / other-size / same-size targets, aliasing assignments that go through a "
-             "temporary, chained expressions, rotations, transforms, eigen system, ...) x 6 (target dim, operand dim) pairs x {empty cache, cache primed with blocks of both dimensions}: a counting "
+             "temporary, chained expressions, rotations, transforms, eigen system, ...) x 6 (target dim, operand dim) pairs x {empty cache, cache primed with a few blocks of both dimensions, cache completely full}: a counting "
              "pass finds the n allocation attempts (operator new and new[]) inside the call, then for k=1..n the same pre-state is rebuilt and exactly the k-th attempt throws std::bad_alloc. "
              "Judged after each injection: exception type, ownership-flag invariants (hook), other vectors bitwise unchanged, every vector reassigned and destroyed, ledger errors, no array "
              "block live after the cache is drained, ASan. distinct_nontrivial = distinct (operation, dims, cache state, k).",
@@ -187,7 +187,7 @@ PROPS = {
              "16 kinds of calls that end in a library exception, and solver objects (construct, grid, evolve, move-construct, move-assign onto a used solver, query incl. rejected queries, re-init, "
              "destroy). Oracles are the generic ones only: ASan/UBSan silence, ledger invariants after every step, ownership-flag invariants, ledger empty after final destruction and cache drain, "
              "LeakSanitizer at exit (GSL's malloc'ed objects).",
-        floors=dict(quick={"steps": 50000, "op.producer": 5000, "op.inplace": 1000, "op.tables": 1000, "op.throwing": 1000, "op.solver": 1000, "exceptions.library": 800, "exceptions.solver": 2000},
+        floors=dict(quick={"steps": 50000, "op.producer": 5000, "op.inplace": 1000, "op.tables": 1000, "op.throwing": 1000, "op.solver": 1000, "exceptions.library": 800, "exceptions.solver": 2000, "op.cache_overflow_burst": 500},
                     thorough={"steps": 2000000}),
         assumptions=["red-zone sanitizers miss non-adjacent overflows; user storage is therefore exact-size and the model compares every buffer with its image after each step"],
     ),
